@@ -14,11 +14,16 @@ Model gap noticed while building the histories (no witness below depends on it):
 undo concurrently and both restore T1), `applySetU` writes the tombstoned loser over the single
 heap entry of T1 and the key disappears; Go keeps the live occupant node and shows the value
 (checked on the Go code with GC disabled: both replicas show `{"a":1}`, the model yields `{}` on
-the replica that applies the older restore last). The one-entry-per-identity abstraction of
-Model/Undo.lean needs a guard (or a second entry) for that case.
+the replica that applies the older restore last). It is now listed among the named gaps in the
+header of Model/Undo.lean.
+
+All lemmas speak about the instances at the switch `fixReconcileParent` (Model/Undo.lean) and use
+the equations of Lemmas/UndoCompat.lean; `uexecute` does not depend on the switch, `runOps` passes
+an empty twin set to the skip rule.
 -/
 import YorkieModel.Model.Undo
 import YorkieModel.Model.UndoGc
+import YorkieModel.Lemmas.UndoCompat
 namespace Yorkie.Undo.Sync
 open Yorkie Yorkie.Crdt Yorkie.Undo Yorkie.Undo.Gc
 
@@ -175,12 +180,12 @@ theorem uexecute_not_skipped (src : Source) (hsrc : src ≠ .undoRedo) (d : Doc)
 theorem runOps_executed_le (src : Source) (ops : List UOp) :
     ∀ r : Run, (runOps src r ops).executed.length ≤ r.executed.length + ops.length := by
   induction ops with
-  | nil => intro r; simp [runOps]
+  | nil => intro r; simp [runOps_nil]
   | cons op rest ih =>
     intro r
-    simp only [runOps]
+    simp only [runOps_cons]
     split
-    · have := ih { r with doc := ‹Doc›, tw := addTwins r.tw (twinIds op),
+    · have := ih { r with doc := ‹Doc›,
                           revs := r.revs ++ (‹Option UOp›).toList, executed := r.executed ++ [op] }
       simp at this ⊢
       omega
@@ -191,12 +196,12 @@ theorem runOps_executed_le (src : Source) (ops : List UOp) :
 theorem runOps_executed_ge (src : Source) (ops : List UOp) :
     ∀ r : Run, r.executed.length ≤ (runOps src r ops).executed.length := by
   induction ops with
-  | nil => intro r; simp [runOps]
+  | nil => intro r; simp [runOps_nil]
   | cons op rest ih =>
     intro r
-    simp only [runOps]
+    simp only [runOps_cons]
     split
-    · have := ih { r with doc := ‹Doc›, tw := addTwins r.tw (twinIds op),
+    · have := ih { r with doc := ‹Doc›,
                           revs := r.revs ++ (‹Option UOp›).toList, executed := r.executed ++ [op] }
       simp at this ⊢
       omega
@@ -208,17 +213,17 @@ theorem runOps_none_executed (src : Source) (ops : List UOp) :
     ∀ r : Run, (runOps src r ops).executed.length = r.executed.length →
       (runOps src r ops).doc = r.doc := by
   induction ops with
-  | nil => intro r _; simp [runOps]
+  | nil => intro r _; simp [runOps_nil]
   | cons op rest ih =>
     intro r hl
-    simp only [runOps] at hl ⊢
-    cases hex : uexecute r.doc r.tw src op with
+    simp only [runOps_cons] at hl ⊢
+    cases hex : uexecute r.doc (fun _ => false) src op with
     | ok p =>
       obtain ⟨d', rev⟩ := p
       rw [hex] at hl
       simp only at hl
       have := runOps_executed_ge src rest
-        ⟨d', addTwins r.tw (twinIds op), r.revs ++ rev.toList, r.executed ++ [op], r.failed⟩
+        ⟨d', r.tw, r.revs ++ rev.toList, r.executed ++ [op], r.failed⟩
       simp at this
       omega
     | error e =>
@@ -236,13 +241,13 @@ theorem runOps_remote_doc (src : Source) (hsrc : src ≠ .remote) (ops : List UO
       (runOps src r ops).executed.length = r.executed.length + ops.length →
       (runOps .remote g ops).doc = (runOps src r ops).doc := by
   induction ops with
-  | nil => intro r g hd _ _; simpa [runOps] using hd
+  | nil => intro r g hd _ _; simpa [runOps_nil] using hd
   | cons op rest ih =>
     intro r g hd hf hl
-    simp only [runOps] at hf hl ⊢
+    simp only [runOps_cons] at hf hl ⊢
     split at hf
     · rename_i d' rev hex
-      have hr := uexecute_local_remote src hsrc r.doc r.tw g.tw op d' rev hex
+      have hr := uexecute_local_remote src hsrc r.doc (fun _ => false) (fun _ => false) op d' rev hex
       rw [hex] at hl
       rw [hd, hr]
       simp only at hl ⊢
@@ -263,10 +268,10 @@ theorem runOps_loc_all_executed (ops : List UOp) :
     ∀ r : Run, (runOps .loc r ops).failed = false →
       (runOps .loc r ops).executed.length = r.executed.length + ops.length := by
   induction ops with
-  | nil => intro r _; simp [runOps]
+  | nil => intro r _; simp [runOps_nil]
   | cons op rest ih =>
     intro r hf
-    simp only [runOps] at hf ⊢
+    simp only [runOps_cons] at hf ⊢
     split at hf
     · rename_i d' rev hex
       have := ih _ hf
@@ -274,7 +279,7 @@ theorem runOps_loc_all_executed (ops : List UOp) :
       rw [this]
       simp [Nat.add_assoc, Nat.add_comm 1]
     · rename_i hex
-      exact absurd hex (uexecute_not_skipped .loc (by decide) r.doc r.tw op)
+      exact absurd hex (uexecute_not_skipped .loc (by decide) r.doc (fun _ => false) op)
     · simp at hf
 
 /-! ### histories -/
@@ -283,16 +288,28 @@ theorem runOps_loc_all_executed (ops : List UOp) :
 def noSkip (h : Hist) (ops : List UOp) : Bool :=
   (runOps .undoRedo { doc := h.doc, tw := h.tw } ops).executed.length == ops.length
 
-theorem reticket_doc (ops : List UOp) : ∀ (h : Hist) (i : Nat),
-    (reticket h i ops).1.doc = h.doc ∧ (reticket h i ops).1.tw = h.tw := by
+theorem reticketGo_doc (fx : Bool) (ops : List UOp) : ∀ (h : Hist) (i : Nat)
+    (ren : List (Ticket × Ticket)),
+    (reticketGo fx h i ren ops).1.doc = h.doc ∧ (reticketGo fx h i ren ops).1.tw = h.tw := by
   induction ops with
-  | nil => intro h i; simp [reticket]
+  | nil => intro h i ren; simp [reticketGo]
   | cons op rest ih =>
-    intro h i
-    cases op <;> simp only [reticket] <;> first
-      | exact ih _ _
-      | (have := ih (h.reconcile ‹_› ⟨h.lamport + 1, i, h.actor⟩) (i + 1)
-         simpa [Hist.reconcile] using this)
+    intro h i ren
+    simp only [reticketGo]
+    split
+    · have := ih (h.reconcileW fx ‹UVal›.id ⟨h.lamport + 1, i, h.actor⟩) (i + 1)
+        (ren ++ [(‹UVal›.id, ⟨h.lamport + 1, i, h.actor⟩)])
+      simpa [Hist.reconcileW] using this
+    · rename_i p target v ts hop
+      have := ih (if fx then (h.reconcileW fx target ⟨h.lamport + 1, i, h.actor⟩).reconcileW fx v.id
+          ⟨h.lamport + 1, i, h.actor⟩ else h.reconcileW fx target ⟨h.lamport + 1, i, h.actor⟩) (i + 1)
+        (ren ++ [(target, ⟨h.lamport + 1, i, h.actor⟩), (v.id, ⟨h.lamport + 1, i, h.actor⟩)])
+      cases fx <;> simpa [Hist.reconcileW] using this
+    · exact ih _ _ _
+
+theorem reticket_doc (ops : List UOp) (h : Hist) (i : Nat) :
+    (reticket h i ops).1.doc = h.doc ∧ (reticket h i ops).1.tw = h.tw :=
+  reticketGo_doc fixReconcileParent ops h i []
 
 /-- the four outcomes of `undoRedo` in terms of the run of the shipped operations -/
 theorem undoRedo_cases (h : Hist) (isUndo : Bool) :
@@ -302,7 +319,7 @@ theorem undoRedo_cases (h : Hist) (isUndo : Bool) :
     (∃ ops, (undoRedo h isUndo).2 = .change ops ∧
       (runOps .undoRedo { doc := h.doc, tw := h.tw } ops).failed = false ∧
       (undoRedo h isUndo).1.doc = (runOps .undoRedo { doc := h.doc, tw := h.tw } ops).doc) := by
-  unfold undoRedo
+  rw [undoRedo_eq]
   split
   · exact .inl ⟨rfl, rfl⟩
   · rename_i entry restStack hst
@@ -356,12 +373,12 @@ theorem undoRedo_no_change_doc (h : Hist) (isUndo : Bool)
 
 theorem doChange_doc (h : Hist) (ops : List UOp) :
     (doChange h ops).doc = (runOps .loc { doc := h.doc, tw := h.tw } ops).doc := by
-  unfold doChange
+  rw [doChange_eq]
   split
   · rename_i he
     have : ops = [] := by simpa using he
     subst this
-    simp [runOps]
+    simp [runOps_nil]
   · simp only
     split <;> rfl
 
@@ -462,11 +479,11 @@ theorem lockstep_doc (acts : List Act) : ∀ (h g : Hist) (ok : Bool), g.doc = h
 theorem grunOps_fst (src : Source) (ops : List UOp) :
     ∀ (r : Run) (g : Reg), (grunOps src (r, g) ops).1 = runOps src r ops := by
   induction ops with
-  | nil => intro r g; simp [grunOps, runOps]
+  | nil => intro r g; simp [grunOps, runOps_nil]
   | cons op rest ih =>
     intro r g
-    simp only [grunOps, runOps]
-    cases hex : uexecute r.doc r.tw src op with
+    simp only [grunOps, runOps_cons, twOf_on, addTwins_eq]
+    cases hex : uexecute r.doc (fun _ => false) src op with
     | ok p => obtain ⟨d', rev⟩ := p; simp [ih]
     | error e => cases e <;> simp [ih]
 
